@@ -125,8 +125,18 @@ def conclude(prop_id, tier, seed, *, states, transitions, executions, nontrivial
     transient = []
     unconfirmed = set()
     printed = 0
+    import time as _time
+    t_confirm = _time.time()
+    not_replayed = []
     for sigkey, n, vs in fresh:
         v = vs[0]
+        # confirmation budget: once a dozen signatures have been confirmed and printed (nothing further would be printed anyway),
+        # or after five minutes of replaying, the remaining signatures are listed as not replayed instead of being replayed one by
+        # one (a change that keeps state between executions can produce hundreds of signatures, each needing a history replay)
+        if replay_confirm is not None and printed >= 12 and (printed >= 24 or _time.time() - t_confirm > 300):
+            not_replayed.append(sigkey)
+            unconfirmed.add(sigkey)
+            continue
         if replay_confirm is not None:
             ok = False
             for cand in vs:                      # every recorded example of this signature, then once more
@@ -164,6 +174,8 @@ def conclude(prop_id, tier, seed, *, states, transitions, executions, nontrivial
         print("   violation kinds: %s" % json.dumps(kinds, sort_keys=True))
     if printed > 12:
         print("   (%d further distinct violation signatures suppressed)" % (printed - 12))
+    if not_replayed:
+        print("   (%d further distinct signatures were recorded but not replayed: confirmation budget used up)" % len(not_replayed))
     coverage = dict(
         states=int(states),
         transitions=int(transitions),
